@@ -8,6 +8,7 @@ An abstract row is a dict:
   webhook_url, webhook_method, webhook_headers, loop_variable, include_if, data_sheet,
   data_row_id, template_arguments).
 """
+import re
 import uuid as _uuid
 
 ACTION_TYPES = ["send_message", "save_value", "add_to_group", "remove_from_group", "save_flow_result",
@@ -493,9 +494,18 @@ def subst_row(row, env):
     return {k: sub(v) for k, v in row.items()}
 
 
-def include(row):
-    v = str(row.get("include_if", "")).strip().lower()
-    return v != "false"
+INCLUDE_CMP = re.compile(r'^\{\{ (\w+) (==|!=) "([^"]*)" \}\}$')
+
+
+def include(row, env=None):
+    """the reference reading of an include_if cell: a literal, or the comparison `{{ v == "word" }}` of a loop /
+    context variable with a word (what the generator writes), evaluated under the variables in force"""
+    cell = str(row.get("include_if", "")).strip()
+    m = INCLUDE_CMP.match(cell)
+    if m and env is not None and m.group(1) in env:
+        same = env[m.group(1)] == m.group(3)
+        return same if m.group(2) == "==" else not same
+    return cell.lower() != "false"
 
 
 def flatten_sugared(tree):
@@ -527,14 +537,14 @@ def desugar(tree, env=None):
     for it in tree:
         if it[0] == "row":
             r = it[1]
-            if not include(r):
+            if not include(r, env):
                 continue
             r = subst_row(r, env)
             r.pop("include_if", None)
             out.append(r)
         elif it[0] == "for":
             _, head, var, idxvar, elems, cell, body = it
-            if not include(head):
+            if not include(head, env):
                 continue
             h = subst_row(head, env)
             h.pop("include_if", None)
@@ -548,7 +558,7 @@ def desugar(tree, env=None):
             out.append({"type": "end_block", "row_id": "", "edges": [edge()]})
         else:
             _, head, body = it
-            if not include(head):
+            if not include(head, env):
                 continue
             h = subst_row(head, env)
             h.pop("include_if", None)
@@ -565,9 +575,10 @@ class SugarGen(Gen):
     first body row continues from the preceding row (blank `from`)."""
 
     def __init__(self, rng, wf=True, special_text=True, prefix="", depth=0, loopvars=(), first_blank=False, empty_loops=False,
-                 shadow=False, ctxvars=()):
+                 shadow=False, ctxvars=(), cmpvars=()):
         super().__init__(rng, wf, special_text, prefix)
         self.ctxvars = tuple(ctxvars)
+        self.cmpvars = tuple(cmpvars)      # loop variables bound to words (not indices, not range numbers): usable in include_if
         self.depth = depth
         self.loopvars = tuple(loopvars)
         self.first_blank = first_blank
@@ -585,6 +596,11 @@ class SugarGen(Gen):
             if self.rng.random() < 0.4:
                 t += " {{" + v + "}}"
         return t
+
+    def cmp_cell(self):
+        """an include_if cell that depends on a loop variable: `{{ v == "word" }}` / `{{ v != "word" }}`"""
+        r = self.rng
+        return '{{ %s %s "%s" }}' % (r.choice(self.cmpvars), r.choice(["==", "!="]), r.choice(SIMPLE))
 
     def gen_tree(self, n_items):
         r = self.rng
@@ -620,6 +636,13 @@ class SugarGen(Gen):
                             ghost = {"type": "send_message", "row_id": "", "edges": [edge(r.choice(self.order), value="ghost")],
                                      "arg": "never {{undefined_variable_" + str(len(self.tree)) + "}}", "include_if": r.choice(["FALSE", "false", "False"])}
                             self.tree.append(("row", ghost))
+                        elif self.cmpvars and r.random() < 0.2:
+                            # a row nobody can refer to that is there in some iterations only: its inclusion depends on a loop variable
+                            srcs = [k for k in self.order if self.info[k]["type"] in ACTION_TYPES + ["wait_for_response", "split_by_value"]]
+                            if srcs:
+                                some = {"type": "send_message", "row_id": "", "edges": [edge(r.choice(srcs), value="some" + str(len(self.tree)))],
+                                        "arg": "sometimes " + self.text(), "include_if": self.cmp_cell()}
+                                self.tree.append(("row", some))
             else:
                 if first or (self.prev is None and not self.order):
                     continue
@@ -653,25 +676,36 @@ class SugarGen(Gen):
                         cell = list(elems)
                         if n == 0:
                             elems, cell = [], "{@ [] @}"
+                    cmpvars = tuple(v for v in self.cmpvars + ((var,) if style != "range" else ()) if v != idxvar and (style != "range" or v != var))
                     sub = SugarGen(r, self.wf, self.special_text, prefix=f"{bid}_{{{{{var}}}}}_", depth=self.depth + 1,
                                    loopvars=self.loopvars + (var,) + ((idxvar,) if idxvar else ()), first_blank=True,
-                                   empty_loops=self.empty_loops, shadow=self.shadow, ctxvars=self.ctxvars)
+                                   empty_loops=self.empty_loops, shadow=self.shadow, ctxvars=self.ctxvars, cmpvars=cmpvars)
                     body = sub.gen_tree(r.choice([1, 2, 3]))
                     if r.random() < 0.1:
                         head["include_if"] = "FALSE"
+                    elif self.cmpvars and r.random() < 0.3:
+                        head["include_if"] = self.cmp_cell()     # there in some iterations of the enclosing loop only
                     self.tree.append(("for", head, var, idxvar, elems, cell, body))
                 else:
                     sub = SugarGen(r, self.wf, self.special_text, prefix=f"{bid}_", depth=self.depth + 1,
                                    loopvars=self.loopvars, first_blank=True,
-                                   empty_loops=self.empty_loops, shadow=self.shadow, ctxvars=self.ctxvars)
+                                   empty_loops=self.empty_loops, shadow=self.shadow, ctxvars=self.ctxvars, cmpvars=self.cmpvars)
                     body = sub.gen_tree(r.choice([1, 2, 3]))
                     if r.random() < 0.1:
                         head["include_if"] = "FALSE"
+                    elif self.cmpvars and r.random() < 0.3:
+                        head["include_if"] = self.cmp_cell()     # there in some iterations of the enclosing loop only
                     self.tree.append(("block", head, body))
                 if include(head):
-                    self.info[bid] = self.new_info("block")
-                    self.order.append(bid)
-                    self.prev = bid
+                    key = bid
+                    if r.random() < 0.2 or INCLUDE_CMP.match(str(head.get("include_if", ""))):
+                        # a block / loop nobody names: only the row written next can leave it (blank `from`)
+                        head["row_id"] = ""
+                        key = "\0" + bid
+                    self.info[key] = self.new_info("block")
+                    if key == bid:
+                        self.order.append(bid)
+                    self.prev = key
         return self.tree
 
 
